@@ -6,7 +6,11 @@ FollAll == {<<>>, <<32, 81>>, <<10, 40, 65, 41, 32, 84, 106>>}          \* (end 
 FollTwo == {<<>>, <<32, 81>>}
 FollOne == {<<32, 81>>}
 KindsPlain == {"none"}
-KindsAll == {"none", "A85", "ASCII85Decode", "A85Fl", "Fl", "FlA85"}
+KindsAll == {"none", "A85", "ASCII85Decode", "A85Fl", "Fl", "FlA85", "A85Arr", "AHx"}
+\* every spelling of an ASCII85 outer filter: abbreviated name, full name, one-element array, multi-element array
+KindsA85 == {"A85", "ASCII85Decode", "A85Arr", "A85Fl"}
+\* ASCII85 text may hold E, I and white space: EI + SP, EI at a line break
+AlphaA85Text == {69, 73, 32, 10}
 StylesBoth == {"eol", "direct"}
 CutsNone == {"none"}
 CutsAll == {"none", "afterID", "afterIDws", "beforeEI", "afterEIws"}
